@@ -196,23 +196,27 @@ def o4(run, project):
     if f is None or ini is None:
         raise AnalysisError("O4: NamedRange.by_number/__init__ not found")
     num = f.args.args[1].arg
-    fm = [c for c in ast.walk(f) if isinstance(c, ast.Call) and isinstance(c.func, ast.Attribute) and c.func.attr == "format"
-          and isinstance(c.func.value, ast.Constant)]
-    ok = len(fm) == 1 and fm[0].func.value.value == "{basename}{sep}{index:0{nibbles}x}"
-    kws = {k.arg: norm(k.value) for k in fm[0].keywords} if fm else {}
-    ok = ok and kws.get("basename") == "self._basename" and kws.get("sep") == "self._sep" and \
-        kws.get("index") in (f"int({num}) - self._start", f"{num} - self._start") and kws.get("nibbles") == "self._index_nibbles"
-    run.ob("O4", ok, "range member name = basename + sep + zero-padded hex offset",
-           f"name is built as {fm[0].func.value.value if fm else '?'} with {kws}", module=mod, node=f, func="NamedRange.by_number",
-           construct="by_number name")
-    last = f.body[-1] if isinstance(f.body[-1], ast.Return) else None
-    ok = last is not None and norm(last.value) == f"self._type(value={num}, name=name)"
-    run.ob("O4", ok, "range member carries the number itself", f"by_number returns `{norm(last.value) if last is not None else '?'}`",
-           module=mod, node=f, func="NamedRange.by_number", construct="by_number value")
-    nib = [s for s in ast.walk(ini) if isinstance(s, ast.Assign) and norm(s.targets[0]) == "index_nibbles"]
-    ok = len(nib) == 1 and norm(nib[0].value) == "ceil((self._end - self._start - 1).bit_length() / 4.0)"
-    run.ob("O4", ok, "offset padded to enough nibbles for the span", f"index_nibbles = `{norm(nib[0].value) if nib else '?'}`",
-           module=mod, node=ini, func="NamedRange.__init__", construct="index_nibbles")
+    from .. import paths
+    from .outcomes import check_table, stores
+    from .c04 import named_range_contains
+    names = (f"f'{{self._basename}}{{self._sep}}{{int({num}) - self._start:0{{self._index_nibbles}}x}}'",
+             f"f'{{self._basename}}{{self._sep}}{{{num} - self._start:0{{self._index_nibbles}}x}}'")
+    inside = [p for p in paths.summarise(mod, f) if (p.truth(f"{num} < self._start") is False and p.truth(f"{num} < self._end") is True)
+              or p.truth(f"{num} in self") is True]
+    run.require(len(inside) >= 1, "O4: NamedRange.by_number has no path for a number inside the range")
+    for p in inside:
+        got = p.value_text() if p.end == "return" else p.end
+        ok = got in [f"self._type(value={num}, name={nm})" for nm in names]
+        run.ob("O4", ok, "range member carries the number itself and the name basename + sep + zero-padded hex offset",
+               f"for a number inside the range by_number gives `{got}`; required: self._type(value={num}, name=<basename><sep><offset "
+               "from start as hex, padded with zeros to index_nibbles digits>)", module=mod, node=p.node or f, func="NamedRange.by_number",
+               construct="by_number member")
+    n = check_table(run, "O4", mod, ini, "NamedRange.__init__",
+                    [({"index_nibbles is None": True}, "ceil((self._end - self._start - 1).bit_length() / 4.0)"),
+                     ({"index_nibbles is None": False}, "index_nibbles")],
+                    lambda q: stores(q).get("self._index_nibbles"), None, "offset padded to enough nibbles for the span",
+                    "index_nibbles", skip=lambda q: q.end == "raise")
+    run.require(n >= 2, "O4: NamedRange.__init__ has no two outcomes")
     sep = [d for a, d in zip(ini.args.args[-len(ini.args.defaults):], ini.args.defaults) if a.arg == "sep"]
     run.ob("O4", len(sep) == 1 and isinstance(sep[0], ast.Constant) and sep[0].value == ".", "separator is '.'",
            "default separator changed", module=mod, node=ini, func="NamedRange.__init__", construct="sep default")
@@ -233,23 +237,23 @@ def o4(run, project):
     ei = mod.functions().get("tpm_enum._tpm_enum.__init__")
     if ei is None:
         raise AnalysisError("O4: tpm_enum.__init__ not found")
-    txt = norm(ei)
-    ok = "instance = type(self).by_value(value)" in txt and "self._name = instance._name" in txt and \
-        "self._value = instance._value" in txt and "except ValueError:" in txt and "self._value = value" in txt
-    run.ob("O4", ok, "enum construction looks the member up by value and keeps unknown integers",
-           "tpm_enum.__init__ no longer resolves the name through by_value / keeps the raw value", module=mod, node=ei,
-           func="tpm_enum.__init__", construct="enum __init__")
+    ep = [a_.arg for a_ in ei.args.args]
+    run.require(len(ep) == 3, "O4: tpm_enum.__init__ signature changed")
+    ev, en = ep[1], ep[2]
+    look = f"type(self).by_value({ev})"
+    n = check_table(run, "O4", mod, ei, "tpm_enum.__init__",
+                    [({f"{en} is None": False}, (en, ev)),
+                     ({f"{en} is None": True, "try raises ValueError": True}, ("None", ev)),
+                     ({f"{en} is None": True}, (f"{look}._name", f"{look}._value"))],
+                    lambda q: (stores(q).get("self._name"), stores(q).get("self._value")), None,
+                    "enum construction keeps a given name, else looks the member up by value and keeps unknown integers without a name",
+                    "enum __init__", skip=lambda q: q.end == "raise", show=lambda o: f"(_name, _value) = {o}",
+                    closed=("try raises ValueError",))
+    run.require(n >= 3, "O4: tpm_enum.__init__ has fewer than three outcomes")
     # _INT text form delegates to the wrapped value
     base = project.module(BASE)
     st = base.functions().get("_INT.__str__")
     ok = st is not None and [norm(s) for s in walk_no_nested(st) if isinstance(s, ast.Return)] == ["return str(self._value)"]
     run.ob("O4", ok, "_INT text form is the wrapped value's", "_INT.__str__ no longer returns str(self._value)", module=base,
            node=st or base.tree, func="_INT.__str__", construct="_INT.__str__")
-    from .c04 import v4  # NamedRange.__contains__ half-open is part of V4, reported under O4 as well
-    nc = mod.functions().get("NamedRange.__contains__")
-    rets = [s for s in walk_no_nested(nc) if isinstance(s, ast.Return)]
-    it = nc.args.args[1].arg
-    ok = len(rets) == 1 and norm(rets[0].value) in (f"self._start <= {it} < self._end", f"{it} >= self._start and {it} < self._end",
-                                                     f"{it} in range(self._start, self._end)")
-    run.ob("O4", ok, "NamedRange.__contains__ is half-open like range", f"returns `{norm(rets[0].value) if rets else '?'}`",
-           module=mod, node=nc, func="NamedRange.__contains__")
+    named_range_contains(run, "O4", mod)
